@@ -378,6 +378,7 @@ func runC10(r *Run) {
 		r.Check(ok, "C10.malicious", fname(cl), "released records are skipped without stopping the scan", "false or the caller's verdict",
 			"the scan stops at a released record: frozen validators after it are missing from the malicious set and keep receiving positive-power updates", p.pos(cl.Pos()))
 	}
+	checkLastActive(r)
 	r.Floor("C10.", 20)
 }
 
